@@ -26,7 +26,7 @@ func init() {
 
 var profC18 = Profile{
 	MaxBars: 8, MinBars: 1, MaxSteps: 45, Refresh: []string{"manual", "manual", "manual", "autoinj", "autort"}, QLens: []int{-1},
-	Pop: 100, Queue: 15, Prio: true, PrioOnFinished: true, PrioExtreme: true, Ext: 30, Text: 2, Rm: 20, NoPop: 25, AbortW: 3, TicksW: 10,
+	Pop: 100, Queue: 15, LateSuccW: 2, Prio: true, PrioOnFinished: true, PrioExtreme: true, Ext: 30, Text: 2, Rm: 20, NoPop: 25, AbortW: 3, TicksW: 10,
 	Pty: 30, PtyRowsMax: 12, Fillers: []string{"tag", "bar"}, LateAdd: true, OnCompleteFill: 30, PrioMidRender: 20, AddTick: 10,
 }
 
@@ -141,6 +141,25 @@ func runC18(ci interface{}) Result {
 			}
 		}
 	}
+	// can the rows of all bars exceed the height (terminal rows - 1, or the width
+	// of a non-terminal output)?
+	allRows := 0
+	for i, b := range sc.Bars {
+		if end[i].Added {
+			allRows += 1 + b.ExtRows
+		}
+	}
+	heightLimit := sc.Cfg.Width
+	if heightLimit <= 0 {
+		heightLimit = 80
+	}
+	if sc.Cfg.PtyRows > 0 {
+		heightLimit = sc.Cfg.PtyRows - 1
+	}
+	mayClip := allRows > heightLimit
+	if mayClip {
+		r.Classes = append(r.Classes, "rows-exceed-height")
+	}
 	where := map[int]int{}
 	count := map[int]int{}
 	extCount := map[string]int{}
@@ -190,6 +209,13 @@ func runC18(ci interface{}) Result {
 		case eitherSet[i]:
 			if count[i] > 1 {
 				r.Err, r.Kind = fmt.Errorf("bar %d finished in pop-completed mode before its successors were created: it stays on screen once or not at all, it is there %d times; screen: %q", i, count[i], doc), "pop-count"
+				return r
+			}
+		case liveSet[i] && !manual && mayClip:
+			// more rows than the height: which of the bars still in the container
+			// the last frame shows is the frame model's business (manual refresh)
+			if count[i] > 1 {
+				r.Err, r.Kind = fmt.Errorf("bar %d is in the last frame and must be on screen at most once, it is there %d times; screen: %q", i, count[i], doc), "live-count"
 				return r
 			}
 		case liveSet[i]:
